@@ -653,3 +653,139 @@ def run(ctx):
     _run_main(ctx)
     extras(ctx)
     ctx.flush()
+
+
+# ---- extras2 (harness extension hx_b): exact scaling of the record and of time, documented defaults / positional forms, containers,
+# ---- objects with a history ---------------------------------------------------------------------------------------------------------------
+
+def _x2_case(rng):
+    n = gen.log_int(rng, 5, 160)
+    dt = rng.choice([0.01, 0.02, 0.005, 0.125])
+    a = gen.any_record(rng, n, dt)[1]
+    m = rng.randint(1, 4)
+    tts = np.sort(np.array([rng.choice([0.0, dt / 2, dt, 3 * dt, rng.uniform(0, 20 * dt)]) for _ in range(m)]))
+    kw = {'nodal': rng.random() < 0.5, 'up_red': rng.choice([1.0, 0.8]), 'down_red': rng.choice([1.0, 0.9, 0.5]), 'stt': rng.choice([0.0, 0.0, 2 * dt, 0.013]),
+          'trim': rng.random() < 0.5, 'start': rng.random() < 0.5}
+    return n, dt, a, tts, kw
+
+
+def _x2_scale(ctx, cur):
+    """(2) the delayed-wave motions and the shifting helpers are of degree 1 in the record (exact for 2^+-600), the surface energy and its
+    cumulative absolute change of degree 2 (2^+-200, 2^+-400); scaling dt, the travel times and stt together by 2^k keeps the motions and scales the
+    energies by 2^2k (the velocity is an integral over time)"""
+    import eqsig
+    from eqsig import surface as sf
+    from eqsig.fns import time_shift as tsh
+    from _hxb_common import same, val, light_history
+    rng = ctx.rng
+    for it in range(30 if ctx.tier == 'quick' else 300):
+        n, dt, a, tts, kw = _x2_case(rng)
+        inputs = {'a': a, 'dt': dt, 'travel_times': tts, **kw}
+        cur.clear()
+        cur.update(inputs)
+        ctx.hist('extras2/scale')
+        ctx.count_case(('x2s', a.tobytes(), dt, tts.tobytes(), repr(kw)), gen.nontrivial_record(a))
+        fns = [('calc_surface_energy', sf.calc_surface_energy, 2), ('calc_cum_abs_surface_energy', sf.calc_cum_abs_surface_energy, 2), ('get_time_shift_motions', sf.get_time_shift_motions, 1)]
+        base = {nm: np.asarray(f(eqsig.AccSignal(a.copy(), dt), tts.copy(), **kw)) for nm, f, _ in fns}
+        # (5) objects with a history
+        for nm, f, _ in fns:
+            g = val(call_impl(f, light_history(ctx, eqsig.AccSignal, a, dt), tts.copy(), **kw))
+            ctx.oracle('C19 %s on an object with a history == on a fresh object' % nm, same(g, base[nm]), inputs)
+            ctx.last_object_history = None
+        sh = np.array([rng.randint(-6, 6) for _ in range(rng.randint(1, 4))])
+        shp = np.abs(sh)
+        clip = rng.choice(['none', 'start', 'end', 'both'])
+        jt = rng.choice(['add', 'sub'])
+        P, J = tsh.put_array_in_2d_array(a, sh, clip=clip), tsh.join_values_w_shifts(a, shp, jtype=jt)
+        for k in gen.EXTREME_POW2 + (200, -200, 400, -400):
+            f2 = 2.0 ** k
+            sc = {**inputs, 'scale': '2**%d' % k}
+            with np.errstate(all='ignore'):
+                for nm, f, deg in fns:
+                    if deg == 2 and abs(k) > 400:
+                        continue
+                    g = val(call_impl(f, eqsig.AccSignal(a * f2, dt), tts.copy(), **kw))
+                    ctx.oracle('C19 %s is homogeneous of degree %d in the record: exact under scaling by a power of two' % (nm, deg),
+                               g is not None and gen.scaled_exactly(g, base[nm], f2 ** deg), sc)
+                    kw2 = {**kw, 'stt': kw['stt'] * f2}
+                    g = val(call_impl(f, eqsig.AccSignal(a.copy(), dt * f2), tts * f2, **kw2))
+                    ctx.oracle('C19 %s: scaling dt, the travel times and stt by the same power of two %s' % (nm, 'keeps the motions' if deg == 1 else 'scales the energy by its square, exactly'),
+                               g is not None and (same(g, base[nm]) if deg == 1 else gen.scaled_exactly(g, base[nm], f2 * f2)), sc)
+                g = val(call_impl(tsh.put_array_in_2d_array, a * f2, sh, clip=clip))
+                ctx.oracle('C19.e put_array_in_2d_array scales exactly with the values (power of two)', g is not None and gen.scaled_exactly(g, P, f2), {**sc, 'shifts': sh, 'clip': clip})
+                g = val(call_impl(tsh.join_values_w_shifts, a * f2, shp, jtype=jt))
+                ctx.oracle('C19.f join_values_w_shifts scales exactly with the values (power of two)', g is not None and gen.scaled_exactly(g, J, f2), {**sc, 'shifts': shp, 'jtype': jt})
+
+
+def _x2_options(ctx, cur):
+    """(3) documented defaults (nodal=True, up_red=1, down_red=1, stt=0, trim=False, start=False; clip='none'; jtype='add') and positional forms;
+    (4) travel times / shifts / values in any container or dtype"""
+    import eqsig
+    from eqsig import surface as sf
+    from eqsig.fns import time_shift as tsh
+    from _hxb_common import same, val
+    rng = ctx.rng
+    for it in range(30 if ctx.tier == 'quick' else 300):
+        n, dt, a, tts, kw = _x2_case(rng)
+        inputs = {'a': a, 'dt': dt, 'travel_times': tts, **kw}
+        cur.clear()
+        cur.update(inputs)
+        ctx.hist('extras2/options')
+        ctx.count_case(('x2o', a.tobytes(), dt, tts.tobytes(), repr(kw)), gen.nontrivial_record(a))
+        mk = lambda: eqsig.AccSignal(a.copy(), dt)   # noqa: E731
+        for nm, f in (('calc_surface_energy', sf.calc_surface_energy), ('calc_cum_abs_surface_energy', sf.calc_cum_abs_surface_energy), ('get_time_shift_motions', sf.get_time_shift_motions)):
+            want = val(call_impl(f, mk(), tts.copy(), nodal=True, up_red=1.0, down_red=1.0, stt=0.0, trim=False, start=False))
+            g = val(call_impl(f, mk(), tts.copy()))
+            ctx.oracle('C19 %s: documented defaults (nodal=True, up_red=1, down_red=1, stt=0, trim=False, start=False) give the result of the explicit call' % nm,
+                       want is not None and same(g, want), inputs)
+            want = val(call_impl(f, mk(), tts.copy(), **kw))
+            g = val(call_impl(f, mk(), tts.copy(), kw['nodal'], kw['up_red'], kw['down_red'], kw['stt'], kw['trim'], kw['start']))
+            ctx.oracle('C19 %s: positional form == keyword form' % nm, want is not None and same(g, want), inputs)
+            for lab, c in (('list', [float(t) for t in tts]), ('tuple', tuple(float(t) for t in tts)), ('strided', np.repeat(tts, 2)[::2])):
+                g = call_impl(f, mk(), c, **kw)
+                if g[0] == 'err' and g[1] in ('TypeError', 'AttributeError'):
+                    ctx.hist('extras2/travel-time container rejected loudly/' + lab)      # a restriction of the domain, not demanded
+                    continue
+                ctx.oracle('C19 %s does not depend on the container holding the travel times' % nm, g[0] == 'ok' and same(g[1], want), {**inputs, 'container': lab}, detail=g if g[0] != 'ok' else None)
+            ai = gen.int_record(rng, n, -9, 9)
+            wi = val(call_impl(f, eqsig.AccSignal(ai.copy(), dt), tts.copy(), **kw))
+            for lab, c in gen.container_variants(ai, floats32=False, arrays_only=True):      # a signal built from a float32 array is evaluated in single precision: not demanded
+                g = val(call_impl(f, eqsig.AccSignal(c, dt), tts.copy(), **kw))
+                ctx.oracle('C19 %s does not depend on the dtype of the record the signal was built from' % nm, wi is not None and same(g, wi), {**inputs, 'a': ai, 'container': lab})
+        sh = np.array([rng.randint(-6, 6) for _ in range(rng.randint(1, 4))])
+        shp = np.abs(sh)
+        ai = gen.int_record(rng, n, -9, 9)
+        ctx.oracle("C19.e put_array_in_2d_array: default clip == 'none'", same(val(call_impl(tsh.put_array_in_2d_array, a, sh)), tsh.put_array_in_2d_array(a, sh, clip='none')), {**inputs, 'shifts': sh})
+        ctx.oracle("C19.f join_values_w_shifts / join_sig_w_time_shift: default jtype == 'add'", same(val(call_impl(tsh.join_values_w_shifts, a, shp)), tsh.join_values_w_shifts(a, shp, jtype='add')) and
+                   same(val(call_impl(tsh.join_sig_w_time_shift, mk(), shp * dt)), tsh.join_sig_w_time_shift(mk(), shp * dt, jtype='add')), {**inputs, 'shifts': shp})
+        clip = rng.choice(['none', 'start', 'end', 'both'])
+        jt = rng.choice(['add', 'sub'])
+        wantP, wantJ = tsh.put_array_in_2d_array(ai, sh, clip=clip), tsh.join_values_w_shifts(ai, shp, jtype=jt)
+        for lab, c in gen.container_variants(ai):
+            ctx.hist('extras2/container/' + lab)
+            snap = np.array(c)
+            g = call_impl(tsh.put_array_in_2d_array, c, sh, clip=clip)
+            ctx.oracle('C19.e put_array_in_2d_array does not depend on the container or dtype holding the values', g[0] == 'ok' and same(g[1], wantP) and np.asarray(g[1]).dtype == np.float64,
+                       {'values': ai, 'shifts': sh, 'clip': clip, 'container': lab}, detail=g if g[0] != 'ok' else None)
+            g = call_impl(tsh.join_values_w_shifts, c, shp, jtype=jt)
+            ctx.oracle('C19.f join_values_w_shifts does not depend on the container or dtype holding the values', g[0] == 'ok' and same(g[1], wantJ),
+                       {'values': ai, 'shifts': shp, 'jtype': jt, 'container': lab}, detail=g if g[0] != 'ok' else None)
+            ctx.oracle('C19 the shifting helpers leave their input unchanged', same(np.array(c), snap) and np.array(c).dtype == snap.dtype, {'values': ai, 'container': lab})
+        for lab, s2 in (('list', [int(x) for x in sh]), ('tuple', tuple(int(x) for x in sh)), ('int32', sh.astype(np.int32)), ('int16', sh.astype(np.int16))):
+            g = call_impl(tsh.put_array_in_2d_array, a, s2, clip=clip)
+            ctx.oracle('C19.e put_array_in_2d_array does not depend on the container or integer dtype holding the shifts', g[0] == 'ok' and
+                       same(g[1], tsh.put_array_in_2d_array(a, sh, clip=clip)), {'values': a, 'shifts': sh, 'clip': clip, 'container': lab}, detail=g if g[0] != 'ok' else None)
+
+
+def extras2(ctx):
+    from _hxb_common import guarded_sections
+    guarded_sections(ctx, 'C19', [('scale', _x2_scale), ('options', _x2_options)])
+
+
+_run_main2 = run
+
+
+def run(ctx):
+    _run_main2(ctx)
+    extras2(ctx)
+    ctx.flush()
